@@ -761,6 +761,10 @@ def correspondence(ctx):
         else:
             freq = np.sort(rng.uniform(20.0, 2000.0, [1, 2, 3][(i // 4) % 3]))
         Fn = None if (i // 4) % 2 == 0 else np.sort(rng.uniform(30.0, 1500.0, int(rng.integers(1, 5))))
+        if Fn is not None and len(freq) > 3 and i % 3 != 0:
+            # some Fn are members of freq, one value twice: np.unique must drop the duplicates
+            Fn = np.sort(np.hstack((Fn, freq[rng.integers(1, len(freq) - 1, 2)], Fn[:1])))
+            ctx.count("vrs:Fn-on-grid")
         getresp = bool(rng.integers(0, 2))
         try:
             with warnings.catch_warnings():
@@ -842,7 +846,7 @@ def correspondence(ctx):
                                           "freq:0Hz", "error:empty-record", "error:empty-residual-window"]
         + ["rolloff:%s:resampled:%s" % (r, t) for r in ROLLS for t in TIMES] + ["exact:" + s for s in STYPES]
         + ["vrs:uniform", "vrs:log", "vrs:random", "vrs:uniform+Fn", "vrs:log+Fn", "vrs:random+Fn", "vrs:raises",
-           "vrs:grid", "vrs:miles"]
+           "vrs:grid", "vrs:miles", "vrs:Fn-on-grid"]
         + ["exact0:" + s for s in STYPES] + ["steady:" + s for s in STYPES] + ["resid:" + s for s in STYPES]
         + ["xcol:stype:" + s for s in STYPES] + ["xcol:ic:" + s for s in ICS] + ["xcol:time:" + s for s in TIMES]
         + ["xcol:peak:" + s for s in PEAKS]
@@ -1280,9 +1284,25 @@ def _hint_cases(hints, rng):
     return out
 
 
+def _corpus(ctx):
+    """minimised past failures / boundary inputs (corpus/c03.json), run first"""
+    import json
+    import os
+
+    path = os.path.join(ctx.verif, "corpus", "c03.json")
+    if not os.path.exists(path):
+        return []
+    out = []
+    for c in json.load(open(path)):
+        c = dict(c)
+        c.pop("note", None)
+        out.append(c)
+    return out
+
+
 def search(ctx, hints):
     rng = ctx.np_rng(11)
-    cases = _hint_cases(hints, rng)
+    cases = _corpus(ctx) + _hint_cases(hints, rng)
     # base stream: every stype x ic x time with a random peak, seeded records
     reps = ctx.pick(3, 12)
     for r in range(reps):
@@ -1327,6 +1347,9 @@ def search(ctx, hints):
                       "freq": np.arange(20.0, 2000.0, float(rng.choice([0.5, 1.0, 2.0]))).tolist(), "Q": Qv})
         cases.append({"kind": "vrs", "spec_f": F.tolist(), "spec_p": Pp, "linear": lin, "grid": "log", "Fn": offgrid,
                       "freq": np.geomspace(20.0, 2000.0, int(rng.choice([700, 1500, 2500]))).tolist(), "Q": Qv})
+        ug = np.arange(20.0, 2000.0, 2.0)
+        cases.append({"kind": "vrs", "spec_f": F.tolist(), "spec_p": Pp, "linear": lin, "grid": "uniform",
+                      "Fn": sorted(offgrid + ug[rng.integers(5, 400, 2)].tolist() + offgrid[:1]), "freq": ug.tolist(), "Q": Qv})
         cases.append({"kind": "vrs", "spec_f": F.tolist(), "spec_p": Pp, "linear": lin, "grid": "random", "Fn": None,
                       "freq": np.unique(np.hstack(([20.0, 2000.0], rng.uniform(20.0, 2000.0, 1500)))).tolist(), "Q": Qv})
     # roll-off: every resampler x every window, resampling triggered (sr / max(freq) < ppc)
